@@ -420,6 +420,21 @@ func ruleLMSentinel(p *Prog, r *Reporter) {
 						ok = true
 					}
 				}
+				within := false
+				for _, g := range gs {
+					b, isB := g.cond.(*ssa.BinOp)
+					if !isB || !strings.Contains(p.D(b), "runLimits.maxFacts") {
+						continue
+					}
+					exceeded := (b.Op == token.GEQ || b.Op == token.GTR) == g.val
+					if isFactCount(p, b.Y) {
+						exceeded = (b.Op == token.LEQ || b.Op == token.LSS) == g.val
+					}
+					if !exceeded {
+						within = true
+					}
+				}
+				r.Check(within, pos, p.FuncName(body), "send nil within limits", "success is reported only after the fact-count limit was tested and not exceeded", "success (nil) can be reported although the fact count is at or above maxFacts: the limit test does not precede the fixpoint test")
 				r.Check(ok, pos, p.FuncName(body), "send nil", "success is reported only when the fact count is unchanged by an iteration (fixpoint)",
 					"success (nil) is sent on a path that is not guarded by 'fact count before == fact count after' of one iteration: a truncated evaluation can report success")
 				seen["nil"]++
